@@ -201,6 +201,9 @@ func (sc *c11Scenario) handlerTID(s *simrt.Sim, hd *fpgo.HandlerDef) int {
 func (sc *c11Scenario) Run(s *simrt.Sim) {
 	h := &Hist{S: s}
 	sc.h = h
+	// the library's default instances (default Handler/Actor and whatever else the package creates when it is loaded) are
+	// re-created inside every simulation: code that falls back on them runs on simulated threads (see C12, C16)
+	fpgo.SimReinit()
 	add := func(clause, fp, detail string) {
 		sc.extra = append(sc.extra, Violation{Clause: clause, Fingerprint: fp, Detail: detail})
 	}
